@@ -4,7 +4,7 @@
 #   /root/scratch/mut/verif  git worktree of /verif HEAD, harness path dependency and cargo target dir pointed into the sandbox
 # usage: tools/mut_sandbox.sh          (then: EVENIO_REPO=/root/scratch/mut/repo /root/scratch/mut/verif/check Cxx)
 set -e
-S=/root/scratch/mut
+S=${MUT_SANDBOX:-/root/scratch/mut}
 mkdir -p $S
 git -C /repo worktree remove --force $S/repo 2>/dev/null || true
 git -C /verif worktree remove --force $S/verif 2>/dev/null || true
